@@ -191,7 +191,8 @@ Record sub := mkSub {
   s_paths : list path;                (* the subscribe request kept in the RX buffer *)
   (* ghost *)
   s_del : list (path * N);            (* per path: change id current when the value last delivered was read *)
-  s_dev : N                           (* every event up to this number was delivered (or is gone) *)
+  s_dev : N;                          (* every event up to this number was delivered (or is gone) *)
+  s_since : N                         (* [now] of the last successful report, or of the resumption after a restart *)
 }.
 
 Definition checked_add (a d : N) : option N := if a + d <=? IMAX then Some (a + d) else None.
@@ -316,13 +317,13 @@ Definition visit (n : N) (x : ctx) (p : path) (b : bool) : ctx :=
 Definition visit_rest (tb : list entry) (n : N) (x : ctx) : ctx :=
   fold_left (fun x p => visit n x p (should_report tb x p)) (s_paths (x_sub x)) x.
 
-Definition with_core (s : sub) (rep_at retry_at fail seen seen_ev : N) (del : list (path * N)) (dev : N) : sub :=
-  mkSub (s_id s) (s_fab s) (s_peer s) (s_min s) (s_max s) rep_at retry_at fail seen seen_ev (s_paths s) del dev.
+Definition with_core (s : sub) (rep_at retry_at fail seen seen_ev : N) (del : list (path * N)) (dev since : N) : sub :=
+  mkSub (s_id s) (s_fab s) (s_peer s) (s_min s) (s_max s) rep_at retry_at fail seen seen_ev (s_paths s) del dev since.
 
 (** [set_keep] + drop: the snapshotted watermarks are committed *)
 Definition sub_after_ok (x : ctx) : sub :=
   let s := x_sub x in
-  with_core s (x_now x) 0 0 (x_nseen x) (x_nseen_ev x) (x_pend x ++ s_del s) (N.max (s_dev s) (x_nseen_ev x)).
+  with_core s (x_now x) 0 0 (x_nseen x) (x_nseen_ev x) (x_pend x ++ s_del s) (N.max (s_dev s) (x_nseen_ev x)) (x_now x).
 
 (** [set_keep_retry] + drop *)
 Definition sub_after_fail (x : ctx) : sub :=
@@ -330,7 +331,7 @@ Definition sub_after_fail (x : ctx) : sub :=
   let fc := N.min (s_fail s + 1) 255 in
   let retry := match checked_add (x_now x) (retry_backoff_secs fc (s_max s) * 1000) with
                | Some v => v | None => IMAX end in
-  with_core s (s_rep_at s) retry fc (s_seen s) (s_seen_ev s) (s_del s) (s_dev s).
+  with_core s (s_rep_at s) retry fc (s_seen s) (s_seen_ev s) (s_del s) (s_dev s) (s_since s).
 
 (** [SubscriptionsInner::report_complete] *)
 Definition report_complete (st : state) (sid : N) (s' : sub) (keep : bool) : state :=
@@ -344,7 +345,7 @@ Definition report_complete (st : state) (sid : N) (s' : sub) (keep : bool) : sta
 
 (** [SubscriptionsInner::add] *)
 Definition fresh_sub (st : state) (fab peer min max : N) (paths : list path) : sub :=
-  mkSub (next_sid st) fab peer min max IMAX 0 0 (watermark (next_chg st)) 0 paths [] 0.
+  mkSub (next_sid st) fab peer min max IMAX 0 0 (watermark (next_chg st)) 0 paths [] 0 0.
 
 Definition min_seen (l : list sub) : option N :=
   match l with
@@ -371,16 +372,16 @@ Definition remove_where (f : sub -> bool) (st : state) : state * bool :=
    negb (k =? 0) || hit).
 
 (** [load_persist]: each record goes through [add], is marked un-primed and kept *)
-Fixpoint resume (recs : list sub) (st : state) (evw : N) : state :=
+Fixpoint resume (recs : list sub) (st : state) (now evw : N) : state :=
   match recs with
   | [] => st
   | r :: t =>
-      if MAX_SUBS <=? count st then resume t st evw
+      if MAX_SUBS <=? count st then resume t st now evw
       else
         let s := fresh_sub st (s_fab r) (s_peer r) (s_min r) (s_max r) (s_paths r) in
-        let s' := with_core s IMAX 0 0 (s_seen s) evw [] evw in
+        let s' := with_core s IMAX 0 0 (s_seen s) evw [] evw now in
         resume t (mkSt (next_sid st + 1) (count st + 1) (subs st ++ [s']) (tab st) (next_chg st)
-                       None false (ctxs st) (kv st) (log st) (nchg st) (evn st)) evw
+                       None false (ctxs st) (kv st) (log st) (nchg st) (evn st)) now evw
   end.
 
 Definition report_slot_free (st : state) : bool :=
@@ -453,7 +454,7 @@ Definition step_gen (fixed : bool) (ob : option bool) (st : state) (o : op) : st
       (mkSt (next_sid st) (count st) (subs st) (tab st) (next_chg st) (reporting st) (cancelled st)
             (ctxs st) (subs st) (log st) (nchg st) (evn st), UNone)
   | ORestart now lag =>
-      (resume (kv st) (mkSt 1 0 [] [] 1 None false [] (kv st) [] 0 (evn st)) (evn st - lag), UNone)
+      (resume (kv st) (mkSt 1 0 [] [] 1 None false [] (kv st) [] 0 (evn st)) now (evn st - lag), UNone)
   end.
 
 (** the repaired code *)
